@@ -2,6 +2,7 @@
 from fractions import Fraction
 from vp_common import *
 import vp_coq, kick_cases as kc
+import fp_cases as fc
 
 
 def single_of(c, b):
@@ -11,11 +12,46 @@ def single_of(c, b):
                        c.stream, "slice %d of %s" % (b, c.cid))
 
 
+def fp_single_of(c, b):
+    n = c.n
+    return fc.FPCase("%s_b%d" % (c.cid, b), c.dt, c.v, n, 1, c.steps, c.pmin, c.pmax, c.e1,
+                     c.data[b * n * n:(b + 1) * n * n], c.stream, "slice %d of %s" % (b, c.cid))
+
+
+def run_fp(ctx, dis):
+    """Fokker-Planck step: slice b of the nb-bunch result vs the single-bunch run of that slice, on the
+    implementation (bit-exact: same binary, same arithmetic) and against the model"""
+    cases = fc.gen_cases(ctx, 48 if ctx.quick() else 900, nbs=(2, 3), prefix="g")
+    singles = [fp_single_of(c, b) for c in cases for b in range(c.nb)]
+    res = fc.run_cases(ctx, cases + singles)
+    for c in cases:
+        d = fc.compare_case(c, res[c.cid])
+        if d:
+            dis.append(dict(case=c.replay(), detail=d[:3], sig=dict(kind="fp", stage="correspondence", dt=c.dt, multibunch=True)))
+        n = c.n
+        for b in range(c.nb):
+            s = res["%s_b%d" % (c.cid, b)]
+            sl = res[c.cid]["impl_out"][b * n * n:(b + 1) * n * n]
+            if sl != s["impl_out"]:
+                k = next(i for i in range(n * n) if sl[i] != s["impl_out"][i])
+                ctx.violation("impl-oracle", "bunch %d of a %d-bunch Fokker-Planck step differs from the single-bunch step of the same data" % (b, c.nb),
+                              case=c.replay(), observed=dict(cell=k, multi=str(sl[k]), single=str(s["impl_out"][k])),
+                              sig=dict(kind="fp", clause="slice", dt=c.dt, b_ge1=b >= 1))
+            if res[c.cid]["impl_table"] != s["impl_table"]:
+                ctx.violation("impl-oracle", "the stencil table of a %d-bunch Fokker-Planck map differs from the single-bunch table" % c.nb,
+                              case=c.replay(), sig=dict(kind="fp", clause="table", dt=c.dt))
+            nz = any(x != 0 for x in c.data[b * n * n:(b + 1) * n * n])
+            ctx.case_done((c.cid, b), b >= 1 and nz and c.v != 0)
+    ctx.sample(cases[0].describe())
+
+
 def run(ctx):
     ctx.rule = ("multi-bunch kick cases (nb 2..3, per-bunch offset fields for the y kick, both directions, it 1..4, all streams): "
                 "slice b of the nb-bunch result of the implementation vs the implementation's single-bunch run on that slice "
                 "(bit-exact) and vs the model. Non-trivial: bunch b>=1 with non-zero data and a non-zero offset field.")
-    coq = vp_coq.full_check("C08", ctx, fams=("kick",))
+    ctx.rule += (" fp cases: nb 2..3, both stencils, four variants, 1..3 applications: slice b vs the single-bunch run "
+                 "(bit-exact on the implementation), tables equal, and vs the model. Non-trivial: b>=1, non-zero data, variant != none.")
+    coq = vp_coq.full_check("C08", ctx, fams=("kick", "fp"))
     nk = 60 if ctx.quick() else 1500
     cases = kc.gen_cases(ctx, nk, nbs=(2, 3), sizes=list(range(4, 25)))
     singles = []
@@ -42,8 +78,10 @@ def run(ctx):
             nz = any(v != 0 for v in c.data[b * n * n:(b + 1) * n * n]) and any(o != 0 for o in c.offs)
             ctx.case_done((c.cid, b), b >= 1 and nz and not undefined)
     ctx.sample(cases[0].describe())
+    run_fp(ctx, dis)
     ctx.extra["correspondence_disagreements"] = len(dis)
-    ctx.assumptions += ["kick maps only so far; FP map, RF/drift constructors and the driver-level induction are added in later stages"]
+    ctx.assumptions += ["kick maps (KickMap::apply both directions) and the Fokker-Planck map; the RF/drift constructors' per-bunch offset blocks "
+                        "and the driver-level induction over steps are handled by other checks/stages"]
     conclude(ctx, coq, dis)
 
 
